@@ -176,6 +176,11 @@ pub fn shrink_candidates(scenario: &Value) -> Vec<Value> {
         s.polls = 0;
         push(s);
     }
+    for i in 0..sc.pre_requests.len() {
+        let mut s = sc.clone();
+        s.pre_requests.remove(i);
+        push(s);
+    }
     if sc.timeout_ns.is_some() {
         let mut s = sc.clone();
         s.timeout_ns = None;
